@@ -72,7 +72,7 @@ impl Progress {
 
 /// One byte-stream case: feed the chunks to a fresh ByteParser on a cols x lines screen,
 /// display() after every chunk, then flush + ESC c + x and look for the x.
-fn stream_case(c: &Collector, cols: u32, lines: u32, chunks: &[Vec<u8>], utf8: bool, engine: &str, outcomes: &mut HashSet<u64>) {
+pub fn stream_case(c: &Collector, cols: u32, lines: u32, chunks: &[Vec<u8>], utf8: bool, engine: &str, outcomes: &mut HashSet<u64>) {
     let r = guarded(|| {
         let arc = Arc::new(Mutex::new(Screen::new(cols, lines)));
         let mut ok_rows = true;
@@ -144,7 +144,7 @@ fn stream_case(c: &Collector, cols: u32, lines: u32, chunks: &[Vec<u8>], utf8: b
     }
 }
 
-fn char_case(c: &Collector, cols: u32, lines: u32, chunks: &[String], utf8: bool, engine: &str, outcomes: &mut HashSet<u64>) {
+pub fn char_case(c: &Collector, cols: u32, lines: u32, chunks: &[String], utf8: bool, engine: &str, outcomes: &mut HashSet<u64>) {
     let r = guarded(|| {
         let arc = Arc::new(Mutex::new(Screen::new(cols, lines)));
         let cell;
@@ -530,7 +530,7 @@ pub fn c01(c: &Collector, g: &mut Guard) {
     g.need(c, "session_cases");
 }
 
-fn c01_api_judge(c: &Collector, t: &crate::explore::Trans, engine: &str, _local: &mut crate::explore::Local) -> bool {
+pub fn c01_api_judge(c: &Collector, t: &crate::explore::Trans, engine: &str, _local: &mut crate::explore::Local) -> bool {
     match t.outcome {
         Err(m) => {
             c.violation(mk_violation("C01", engine, t, &format!("panic:{}", panic_class(m)), format!("panicked: {}", m), json!({})));
